@@ -177,6 +177,18 @@ pub fn blocked<T: Payload + 'static>(
             assert!(p.code == R_OK, "C08/C14: send refused although a receiver was blocked");
         }
     }
+    if fired && peer_k == A_OBSERVE {
+        // an observer running while the operation is blocked sees the registered state, nothing half-applied
+        let len = if prefilled { 1 } else { 0 };
+        let mut aux = (1u8 << 4) | (1u8 << 6);
+        if cap == len {
+            aux |= 1;
+        }
+        if len == 0 {
+            aux |= 2;
+        }
+        assert!(p.tag as usize == len && p.aux == aux, "C03: observer saw a state no atomic channel could be in");
+    }
     if r.code == R_TIMEOUT {
         assert!(
             t1 >= t0 + d as u64,
@@ -503,46 +515,6 @@ pub fn split<T: Payload + 'static>(cap: usize, outer_k: u8, s1: u16, s2: u16, fi
 // ---------------------------------------------------------------------------
 use super::spec::{self, Spec};
 
-/// alphabets (kinds only; operands are derived from the step index / chosen symbolically)
-pub const AL_NB: [u8; 9] = [
-    A_TRY_SEND, A_TRY_SEND_OPT, A_TRY_SEND_RT, A_TRY_SEND_OPT_RT, A_TRY_RECV, A_TRY_RECV_RT, A_DRAIN,
-    A_SEND, A_RECV,
-];
-pub const AL_TIMED: [u8; 6] = [A_SEND_TIMEOUT, A_SEND_OPT_TIMEOUT, A_RECV_TIMEOUT, A_TRY_SEND, A_TRY_RECV, A_CLOSE_S];
-pub const AL_LIFE: [u8; 9] = [
-    A_CLONE_S, A_CLONE_R, A_DROP_S, A_DROP_R, A_CLOSE_S, A_CLOSE_R, A_CONVERT_S, A_CONVERT_R, A_TRY_SEND,
-];
-pub const AL_ASYNC_S: [u8; 7] = [A_ASEND_START, A_ASEND_POLL, A_ASEND_DROP, A_TRY_RECV, A_DRAIN, A_CLOSE_R, A_DROP_R];
-pub const AL_ASYNC_R: [u8; 7] = [A_ARECV_START, A_ARECV_POLL, A_ARECV_DROP, A_TRY_SEND, A_SEND, A_CLOSE_S, A_DROP_S];
-pub const AL_STREAM: [u8; 6] = [A_STREAM_START, A_STREAM_POLL, A_STREAM_DROP, A_TRY_SEND, A_DROP_S, A_CLOSE_S];
-pub const AL_MIX: [u8; 10] = [
-    A_TRY_SEND, A_TRY_RECV, A_ASEND_START, A_ASEND_POLL, A_ARECV_START, A_ARECV_POLL, A_DRAIN, A_DROP_S, A_DROP_R,
-    A_CLOSE_S,
-];
-
-fn alpha(id: u8, i: usize) -> u8 {
-    match id {
-        0 => AL_NB[i % AL_NB.len()],
-        1 => AL_TIMED[i % AL_TIMED.len()],
-        2 => AL_LIFE[i % AL_LIFE.len()],
-        3 => AL_ASYNC_S[i % AL_ASYNC_S.len()],
-        4 => AL_ASYNC_R[i % AL_ASYNC_R.len()],
-        5 => AL_STREAM[i % AL_STREAM.len()],
-        _ => AL_MIX[i % AL_MIX.len()],
-    }
-}
-pub fn alpha_len(id: u8) -> usize {
-    match id {
-        0 => AL_NB.len(),
-        1 => AL_TIMED.len(),
-        2 => AL_LIFE.len(),
-        3 => AL_ASYNC_S.len(),
-        4 => AL_ASYNC_R.len(),
-        5 => AL_STREAM.len(),
-        _ => AL_MIX.len(),
-    }
-}
-
 fn live_s<T: Payload + 'static>(cx: &Ctx<T>) -> usize {
     let mut n = 0;
     let mut i = 0;
@@ -592,10 +564,88 @@ fn observe<T: Payload + 'static>(cx: &Ctx<T>, sp: &Spec) {
     }
 }
 
-/// `n` calls chosen by the solver from alphabet `al`; every result and the abstraction of
-/// the real state are compared with the reference model after every call.
-/// `first`: < 255 fixes the kind of the first call (sharding of long sequences).
-pub fn seq<T: Payload + 'static>(cap: Option<usize>, n: usize, al: u8, first: u8) {
+
+fn seq_step<T: Payload + 'static>(cx: &mut Ctx<T>, sp: &mut Spec, k: u8, i: usize, f: u8, w: u8, d: u8) {
+    let mut a = act(k).tag((i + 1) as u8).f(f).w(w).d(0);
+    // ---- preconditions: what a single thread may legally call ----
+    let ls = live_s(cx);
+    let lr = live_r(cx);
+    let sf_live = cx.sf[0].is_some() || cx.sf[1].is_some();
+    let rf_live = cx.rf[0].is_some() || cx.rf[1].is_some() || cx.stream.is_some();
+    match k {
+        A_SEND => kani::assume(ls > 0 && !sp.send_would_wait()),
+        A_RECV => kani::assume(lr > 0 && !sp.recv_would_wait()),
+        A_TRY_SEND | A_TRY_SEND_OPT | A_TRY_SEND_RT | A_TRY_SEND_OPT_RT | A_SEND_TIMEOUT
+        | A_SEND_OPT_TIMEOUT | A_CLOSE_S | A_CONVERT_S => kani::assume(ls > 0 && (k != A_CONVERT_S || !sf_live)),
+        A_TRY_RECV | A_TRY_RECV_RT | A_RECV_TIMEOUT | A_DRAIN | A_CLOSE_R | A_CONVERT_R => {
+            kani::assume(lr > 0 && (k != A_CONVERT_R || !rf_live))
+        }
+        A_CLONE_S => {
+            kani::assume(ls > 0 && ls < NH);
+            a.d = d;
+        }
+        A_CLONE_R => {
+            kani::assume(lr > 0 && lr < NH);
+            a.d = d;
+        }
+        A_DROP_S => {
+            // handles are dropped from the highest index; handle 0 lends itself to futures
+            kani::assume(ls > 0 && (ls > 1 || !sf_live));
+            a.h = (ls - 1) as u8;
+        }
+        A_DROP_R => {
+            kani::assume(lr > 0 && (lr > 1 || !rf_live));
+            a.h = (lr - 1) as u8;
+        }
+        A_ASEND_START => kani::assume(ls > 0 && cx.sf[f as usize].is_none()),
+        A_ASEND_POLL => kani::assume(cx.sf[f as usize].is_some() && sp.sf[f as usize].st != spec::F_DONE),
+        A_ASEND_DROP => kani::assume(cx.sf[f as usize].is_some()),
+        A_ARECV_START => kani::assume(lr > 0 && cx.rf[f as usize].is_none()),
+        A_ARECV_POLL => kani::assume(cx.rf[f as usize].is_some() && sp.rf[f as usize].st != spec::F_DONE),
+        A_ARECV_DROP => kani::assume(cx.rf[f as usize].is_some()),
+        A_STREAM_START => kani::assume(lr > 0 && cx.stream.is_none()),
+        A_STREAM_POLL | A_STREAM_DROP => kani::assume(cx.stream.is_some()),
+        _ => {}
+    }
+    // the model must stay inside its fixed arrays (part of the bound)
+    kani::assume(sp.blen < spec::BUF_MAX && sp.wlen < spec::WQ_MAX - 1);
+    let exp = sp.apply(a);
+    let got = step(cx, 0, a);
+    assert!(got.code == exp.code, "C18: call result differs from the reference model");
+    if exp.code == R_OK && class_of(k) == RECEIVERISH || k == A_ARECV_POLL || k == A_STREAM_POLL || k == A_STREAM_START {
+        assert!(got.tag == exp.tag, "C18/C02: received value differs from the reference model");
+    }
+    if exp.code == R_COUNT {
+        assert!(got.tag == exp.tag && got.aux == exp.aux, "C19: drain_into count differs from the reference model");
+    }
+    if k == A_TRY_SEND_OPT || k == A_TRY_SEND_OPT_RT || k == A_SEND_OPT_TIMEOUT {
+        assert!((cx.opt_back == 0) == (got.code == R_OK), "C05: Option handed back iff the call failed");
+    }
+}
+
+fn seq_post<T: Payload + 'static>(cx: &mut Ctx<T>, sp: &mut Spec) {
+    // ---- abstraction function ----
+    let ab = cx.abs();
+    assert!(ab.qlen == sp.blen, "C18: buffer length differs from the reference model");
+    assert!(ab.wlen == sp.wlen, "C18: waiting list differs from the reference model");
+    assert!(ab.send_count == sp.sc && ab.recv_count == sp.rc, "C12: handle counts differ from the live-handle ledger");
+    assert!(sp.sc == 0 && sp.rc == 0 || (ab.send_count as usize == live_s(cx) && ab.recv_count as usize == live_r(cx)),
+        "C12: count differs from the number of live handles");
+    assert!(ab.qlen <= ab.capacity, "C08: buffer longer than capacity");
+    observe(cx, sp);
+    let mut wk = 0;
+    while wk < 2 {
+        assert!(waker::wakes(wk) >= sp.wakes[wk], "C16/C06: the most recently supplied waker was not woken");
+        wk += 1;
+    }
+}
+
+/// One concrete sequence of calls (operation kinds, future indices, waker ids and clone variants are
+/// fixed per query; payload bits and reported parallelism are solver variables).  Every result and the
+/// abstraction of the real state are compared with the reference model after every call.
+/// A symbolic choice of the operation kind was measured to be out of reach: merging the heap states of
+/// 9 alternative operations takes the solver > 280 s for a single step.
+pub fn seqc<T: Payload + 'static>(cap: Option<usize>, ops: &[(u8, u8, u8, u8)]) {
     unsafe {
         model::CLOCK_FROZEN = true;
         model::PAR = if kani::any() { 1 } else { 2 };
@@ -604,91 +654,13 @@ pub fn seq<T: Payload + 'static>(cap: Option<usize>, n: usize, al: u8, first: u8
     let mut cx = Ctx::<T>::new(cap);
     cx.install();
     let mut sp = Spec::new(cap);
-    // live-handle ledger (independent of the model's counts)
     let mut i = 0;
-    while i < n {
-        let pick: usize = kani::any();
-        kani::assume(pick < alpha_len(al));
-        let mut k = alpha(al, pick);
-        if i == 0 && first != 255 {
-            k = first;
-        }
-        let f: u8 = if kani::any() { 0 } else { 1 };
-        let w: u8 = pick_waker();
-        let mut a = act(k).tag((i + 1) as u8).f(f).w(w).d(0);
-        // ---- preconditions: what a single thread may legally call ----
-        let ls = live_s(&cx);
-        let lr = live_r(&cx);
-        let sf_live = cx.sf[0].is_some() || cx.sf[1].is_some();
-        let rf_live = cx.rf[0].is_some() || cx.rf[1].is_some() || cx.stream.is_some();
-        match k {
-            A_SEND => kani::assume(ls > 0 && !sp.send_would_wait()),
-            A_RECV => kani::assume(lr > 0 && !sp.recv_would_wait()),
-            A_TRY_SEND | A_TRY_SEND_OPT | A_TRY_SEND_RT | A_TRY_SEND_OPT_RT | A_SEND_TIMEOUT
-            | A_SEND_OPT_TIMEOUT | A_CLOSE_S | A_CONVERT_S => kani::assume(ls > 0 && (k != A_CONVERT_S || !sf_live)),
-            A_TRY_RECV | A_TRY_RECV_RT | A_RECV_TIMEOUT | A_DRAIN | A_CLOSE_R | A_CONVERT_R => {
-                kani::assume(lr > 0 && (k != A_CONVERT_R || !rf_live))
-            }
-            A_CLONE_S => {
-                kani::assume(ls > 0 && ls < NH);
-                a.d = kani::any();
-                kani::assume(a.d < 4);
-            }
-            A_CLONE_R => {
-                kani::assume(lr > 0 && lr < NH);
-                a.d = kani::any();
-                kani::assume(a.d < 4);
-            }
-            A_DROP_S => {
-                // handles are dropped from the highest index; handle 0 lends itself to futures
-                kani::assume(ls > 0 && (ls > 1 || !sf_live));
-                a.h = (ls - 1) as u8;
-            }
-            A_DROP_R => {
-                kani::assume(lr > 0 && (lr > 1 || !rf_live));
-                a.h = (lr - 1) as u8;
-            }
-            A_ASEND_START => kani::assume(ls > 0 && cx.sf[f as usize].is_none()),
-            A_ASEND_POLL => kani::assume(cx.sf[f as usize].is_some() && sp.sf[f as usize].st != spec::F_DONE),
-            A_ASEND_DROP => kani::assume(cx.sf[f as usize].is_some()),
-            A_ARECV_START => kani::assume(lr > 0 && cx.rf[f as usize].is_none()),
-            A_ARECV_POLL => kani::assume(cx.rf[f as usize].is_some() && sp.rf[f as usize].st != spec::F_DONE),
-            A_ARECV_DROP => kani::assume(cx.rf[f as usize].is_some()),
-            A_STREAM_START => kani::assume(lr > 0 && cx.stream.is_none()),
-            A_STREAM_POLL | A_STREAM_DROP => kani::assume(cx.stream.is_some()),
-            _ => {}
-        }
-        // the model must stay inside its fixed arrays (part of the bound)
-        kani::assume(sp.blen < spec::BUF_MAX && sp.wlen < spec::WQ_MAX - 1);
-        let exp = sp.apply(a);
-        let got = step(&mut cx, 0, a);
-        assert!(got.code == exp.code, "C18: call result differs from the reference model");
-        if exp.code == R_OK && class_of(k) == RECEIVERISH || k == A_ARECV_POLL || k == A_STREAM_POLL || k == A_STREAM_START {
-            assert!(got.tag == exp.tag, "C18/C02: received value differs from the reference model");
-        }
-        if exp.code == R_COUNT {
-            assert!(got.tag == exp.tag && got.aux == exp.aux, "C19: drain_into count differs from the reference model");
-        }
-        if k == A_TRY_SEND_OPT || k == A_TRY_SEND_OPT_RT || k == A_SEND_OPT_TIMEOUT {
-            assert!((cx.opt_back == 0) == (got.code == R_OK), "C05: Option handed back iff the call failed");
-        }
-        // ---- abstraction function ----
-        let ab = cx.abs();
-        assert!(ab.qlen == sp.blen, "C18: buffer length differs from the reference model");
-        assert!(ab.wlen == sp.wlen, "C18: waiting list differs from the reference model");
-        assert!(ab.send_count == sp.sc && ab.recv_count == sp.rc, "C12: handle counts differ from the live-handle ledger");
-        assert!(sp.sc == 0 && sp.rc == 0 || (ab.send_count as usize == live_s(&cx) && ab.recv_count as usize == live_r(&cx)),
-            "C12: count differs from the number of live handles");
-        assert!(ab.qlen <= ab.capacity, "C08: buffer longer than capacity");
-        observe(&cx, &sp);
-        let mut wk = 0;
-        while wk < 2 {
-            assert!(waker::wakes(wk) >= sp.wakes[wk], "C16/C06: the most recently supplied waker was not woken");
-            wk += 1;
-        }
+    while i < ops.len() {
+        let (k, f, w, d) = ops[i];
+        seq_step(&mut cx, &mut sp, k, i, f, w, d);
+        seq_post(&mut cx, &mut sp);
         i += 1;
     }
-    // receive order equals the model's
     assert!(cx.order_len == sp.order_len, "C01: number of values received differs from the reference model");
     let mut j = 0;
     while j < ORDER_MAX {
@@ -697,14 +669,14 @@ pub fn seq<T: Payload + 'static>(cap: Option<usize>, n: usize, al: u8, first: u8
         }
         j += 1;
     }
-    kani::cover!(sp.order_len >= 1, "some value received");
-    kani::cover!(sp.closed(), "channel closed in the sequence");
+    kani::cover!(true, "sequence is legal");
     cx.sf[0] = None;
     cx.sf[1] = None;
     cx.rf[0] = None;
     cx.rf[1] = None;
     cx.stream = None;
-    epilogue(&mut cx, n as u8);
+    // values still owned by the model's buffer are destroyed with the channel
+    epilogue(&mut cx, ops.len() as u8);
 }
 
 // ---------------------------------------------------------------------------
@@ -743,6 +715,13 @@ pub fn poll_site<T: Payload + 'static>(cap: usize, send_side: bool, site: u16, p
             r1.code != R_PENDING || waker::wakes(w as usize) >= 1,
             "C16/C07: completion raced with waker replacement: the most recently supplied waker is never woken"
         );
+        if r1.code != R_PENDING {
+            if pc == CLOSER {
+                assert!(is_err(r1.code), "C10: pending future not released with an error by close");
+            } else {
+                assert!(r1.code == R_OK, "C06: pending future reported an error although the peer completed it");
+            }
+        }
     }
     // The continuation (second poll, drop, teardown) is deliberately not explored here: a completing
     // peer nested at this point leaves CBMC with a non-constant-folded future state and the formula
@@ -804,7 +783,7 @@ pub fn poll_split<T: Payload + 'static>(send_side: bool, diff: bool, site: u16, 
     epilogue(&mut cx, 3);
 }
 
-/// the receive stream over two waits with spurious polls in between, then the end
+/// the receive stream over three waits with spurious polls in the second one, then the end
 pub fn stream_script<T: Payload + 'static>(cap: usize, spurious: u8) {
     sym_env(0, 0, 1);
     let mut cx = Ctx::<T>::new(Some(cap));
@@ -860,7 +839,6 @@ pub fn ptr_unit<T: Payload + 'static>() {
     let p = KanalPtr::new_from(slot.as_mut_ptr());
     let r = unsafe { p.read() };
     assert!(same_bits(&r.bits(), &b), "C04: value read out of a sender slot differs from the value stored");
-    core::mem::forget(slot);
     drop(r);
     // (ii) written into a blocked receiver's slot, read back the way recv()/ReceiveFuture do
     let v = T::make(2);
@@ -901,7 +879,7 @@ pub fn ptr_unit<T: Payload + 'static>() {
 
 /// nbuf buffered values (tags 3,4), n_async pending send futures (tags 1,2), optionally a parked
 /// sync sender (tag 5, the outer frame: drain runs as its peer at PARK); vector with `prior`
-/// elements (tags 6,7) and `spare` extra capacity.
+/// elements (tags 6,7,8) and `spare` extra capacity.
 pub fn drain_state<T: Payload + 'static>(cap: usize, nbuf: usize, n_async: usize, sync_outer: bool, prior: usize, spare: usize) {
     sym_env(0, 0, 1);
     let mut cx = Ctx::<T>::new(Some(cap));
@@ -1021,10 +999,9 @@ pub fn rt_locked<T: Payload + 'static>(cap: usize, nbuf: usize, waiter: u8) {
         let r = step(&mut cx, 2, act(A_ARECV_START).w(0));
         kani::assume(r.code == R_PENDING);
     }
-    let before = cx.abs();
     let probe = cx.probe.as_ref().unwrap().clone();
     let g = crate::internal::acquire_internal(&probe);
-    // the lock probe would skip nothing here: no sites are involved
+    let before = (g.queue.len(), g.wait_list.len(), g.recv_blocking, g.send_count, g.recv_count);
     let which: u8 = kani::any();
     kani::assume(which < 3);
     let r = match which {
@@ -1036,13 +1013,12 @@ pub fn rt_locked<T: Payload + 'static>(cap: usize, nbuf: usize, waiter: u8) {
     if which == 1 {
         assert!(cx.opt_back != 0, "C05/C14: option variant reported 'not done' but took the value");
     }
+    let after = (g.queue.len(), g.wait_list.len(), g.recv_blocking, g.send_count, g.recv_count);
+    assert!(before == after, "C14: refused realtime operation changed the channel");
     drop(g);
     drop(probe);
-    let after = cx.abs();
-    assert!(before == after, "C14: refused realtime operation changed the channel");
     assert!(cx.got[1] == 0 && cx.got[3] == 0 && cx.got[4] == 0);
     cx.sf[0] = None;
     cx.rf[0] = None;
     epilogue(&mut cx, 4);
 }
-
